@@ -13,6 +13,16 @@ no exception is an instance of those classes.
 -/
 namespace HailVerif.Retry
 
+/-- the `args` of an `aiohttp.ClientPayloadError`, as far as `is_transient_error` looks at them -/
+inductive PayloadMsg where
+  /-- `e.args == ()` (constructed without a message) -/
+  | noArgs
+  /-- `e.args[0]` is not a `str` (`None`, a number, bytes, …) -/
+  | notStr
+  /-- `e.args[0]` is a `str`; does it contain "Response payload is not completed"? -/
+  | text (notCompleted : Bool)
+  deriving DecidableEq, Repr
+
 /-- what the classifiers can observe about one exception object -/
 structure Desc where
   /-- `isinstance(e, aiohttp.ClientResponseError)` → `e.status` (hailtop.httpx.ClientResponseError is a subclass) -/
@@ -33,8 +43,8 @@ structure Desc where
   timeoutError : Bool
   /-- `isinstance(e, aiohttp.ClientConnectorError)` -/
   connector : Bool
-  /-- `isinstance(e, aiohttp.ClientPayloadError) and "Response payload is not completed" in e.args[0]` -/
-  payloadNotCompleted : Bool
+  /-- `isinstance(e, aiohttp.ClientPayloadError)` → the shape of its message -/
+  payload : Option PayloadMsg
   /-- `isinstance(e, aiohttp.ClientOSError) and e.strerror and 'sslv3 alert bad record mac' in e.strerror` -/
   sslBadRecordMac : Bool
   /-- `isinstance(e, OSError)` → `e.errno` (`none` inside = `errno is None`) -/
@@ -99,7 +109,7 @@ def isTransient : Exc → Bool
     else if d.serverDisconnected then true
     else if d.timeoutError then true
     else if d.connector && isTransient os then true            -- `isinstance(e, ClientConnectorError) and is_transient_error(e.os_error)`
-    else if d.payloadNotCompleted then true
+    else if d.payload == some (.text true) then true         -- `e.args and isinstance(e.args[0], str) and "Response payload is not completed" in e.args[0]`
     else if d.sslBadRecordMac then true
     else if (match d.osErrno with | some (some n) => retryableErrno n | _ => false) then true
     else if d.gaierror && (match d.osErrno with | some (some n) => gaiRetryable n | _ => false) then true
